@@ -15,6 +15,7 @@ import (
 	"fmt"
 	"os"
 	"runtime"
+	"runtime/debug"
 	"sort"
 	"sync"
 	"time"
@@ -155,8 +156,16 @@ func main() {
 	workers := flag.Int("workers", runtime.NumCPU(), "parallel sessions")
 	seed := flag.Int64("seed", 1, "seed")
 	dl := flag.Int("deadline_ms", 5000, "per call deadline")
+	jn := flag.String("journal", "", "journal of started / finished ops (lets the runner attribute a fatal runtime error to a call)")
 	flag.Parse()
+	if *jn != "" {
+		if jf, err := os.OpenFile(*jn, os.O_CREATE|os.O_WRONLY|os.O_APPEND|os.O_TRUNC, 0o644); err == nil {
+			journal = jf
+		}
+	}
 	deadline = time.Duration(*dl) * time.Millisecond
+	// runaway recursion ends in a fatal error after 64 MB of stack rather than the default 1 GB (16 workers could exhaust memory first)
+	debug.SetMaxStack(64 << 20)
 	initKeys(*seed)
 
 	f, err := os.Open(*in)
@@ -217,6 +226,21 @@ func main() {
 	fmt.Fprintf(os.Stderr, "drive: %d vectors, %d events\n", len(vectors), n)
 }
 
+// journal: one line when an op starts and one when it has returned.  A fatal runtime error (concurrent map writes, stack
+// exhaustion) cannot be recovered, takes the whole process down and leaves no trace file; the ops that had started and not
+// finished are then the candidates the runner re-drives one by one.
+var journal *os.File
+var journalMu sync.Mutex
+
+func note(what string, sid, seq int) {
+	if journal == nil {
+		return
+	}
+	journalMu.Lock()
+	fmt.Fprintf(journal, "%s %d %d\n", what, sid, seq)
+	journalMu.Unlock()
+}
+
 func runVector(v map[string]any, seed int64) []string {
 	sid := Args(v).Int("sid")
 	s := &Session{Sid: sid, Seed: seed, Vals: map[string]any{}, Bufs: map[string][]byte{}}
@@ -240,7 +264,9 @@ func runVector(v map[string]any, seed int64) []string {
 		}
 		ev["sid"] = sid
 		ev["seq"] = i + 1
+		note("S", sid, i+1)
 		ev["r"] = runOp(s, Args(a))
+		note("E", sid, i+1)
 		b, err := json.Marshal(ev)
 		if err == nil && bytes.Contains(b, []byte("null")) {
 			// TLC's JSON reader has no null: absent values are empty arrays
